@@ -305,23 +305,68 @@ Proof.
   destruct H as [-> | H]; [lia | apply IH in H; lia].
 Qed.
 
-Lemma check_must_nil : forall r e vs, ar_must r = [] -> check_must r e vs = Ok tt.
-Proof. intros r e vs H. unfold check_must. rewrite H. reflexivity. Qed.
+(* must-occur check: depends only on which codes occur, so it is insensitive to element order and to [canon] *)
+Lemma elem_code_canon : forall val e v, elem_code e (canon val e v) = elem_code e v.
+Proof.
+  induction e; intros v; destruct v; cbn [canon elem_code]; try reflexivity; try apply IHe.
+  all: try (destruct ty; reflexivity).
+Qed.
 
-(* the extra guard of this (partial) theorem: no must-occur rules on sequences *)
-Fixpoint no_must (s : schema) : Prop :=
-  match s with
-  | SPtr s' => no_must s'
-  | SStruct _ fs => no_must_fields fs
-  | SSlice _ r e | SArr _ _ r e => ar_must r = [] /\ no_must e
-  | SMap _ _ k v => no_must k /\ no_must v
-  | SIface _ al => no_must_alts al
-  | _ => True
-  end
-with no_must_fields (fs : fields) : Prop :=
-  match fs with FNil => True | FCons _ s r => no_must s /\ no_must_fields r end
-with no_must_alts (al : alts) : Prop :=
-  match al with ANil => True | ACons _ s r => no_must s /\ no_must_alts r end.
+Lemma check_must_spec : forall r e vs,
+  check_must r e vs = Ok tt <->
+  (ar_must r = [] \/
+   ((forall v, In v vs -> elem_code e v <> None) /\
+    (forall c, In c (ar_must r) -> exists v, In v vs /\ elem_code e v = Some c))).
+Proof.
+  intros r e vs. unfold check_must. destruct (ar_must r) as [| c0 must] eqn:Em.
+  - split; auto.
+  - set (M := c0 :: must).
+    assert (G : forall vs seen,
+      (fix go (vs : list value) (seen : list N) {struct vs} : res unit :=
+         match vs with
+         | [] => if forallb (fun c => existsb (N.eqb c) seen) M then Ok tt else Err EMustOccur
+         | v :: rest => match elem_code e v with Some c => go rest (c :: seen) | None => Err EOther end
+         end) vs seen = Ok tt <->
+      ((forall v, In v vs -> elem_code e v <> None) /\
+       (forall c, In c M -> In c seen \/ exists v, In v vs /\ elem_code e v = Some c))).
+    { induction vs0 as [| v rest IH]; intros seen.
+      - destruct (forallb (fun c => existsb (N.eqb c) seen) M) eqn:E.
+        + split; auto. intros _. split; [intros v [] |]. intros c Hc. left.
+          rewrite forallb_forall in E. specialize (E c Hc). apply existsb_exists in E as [x [Hx Hq]].
+          apply N.eqb_eq in Hq. subst. exact Hx.
+        + split; [discriminate |]. intros [_ H]. exfalso.
+          assert (forallb (fun c => existsb (N.eqb c) seen) M = true); [| congruence].
+          apply forallb_forall. intros c Hc. destruct (H c Hc) as [Hs | [v [[] _]]].
+          apply existsb_exists. exists c. split; auto. apply N.eqb_refl.
+      - destruct (elem_code e v) as [cv |] eqn:Ev.
+        + rewrite IH. split.
+          * intros [H1 H2]. split.
+            -- intros x [<- | Hx]; [congruence | auto].
+            -- intros c Hc. destruct (H2 c Hc) as [[<- | Hs] | [x [Hx Hq]]]; eauto.
+               ++ right. exists v. split; auto. left; auto.
+               ++ right. exists x. split; auto. right; auto.
+          * intros [H1 H2]. split.
+            -- intros x Hx. apply H1. right; auto.
+            -- intros c Hc. destruct (H2 c Hc) as [Hs | [x [[<- | Hx] Hq]]].
+               ++ left. right. auto.
+               ++ left. left. congruence.
+               ++ right. eauto.
+        + split; [discriminate |]. intros [H1 _]. exfalso. apply (H1 v); [left; auto | exact Ev]. }
+    rewrite (G vs []). split.
+    + intros [H1 H2]. right. split; auto. intros c Hc. destruct (H2 c Hc) as [[] | H]; auto.
+    + intros [H | [H1 H2]]; [discriminate |]. split; auto.
+Qed.
+
+Lemma check_must_perm_canon : forall val r e vs xs, Permutation xs vs ->
+  check_must r e vs = Ok tt -> check_must r e (map (canon val e) xs) = Ok tt.
+Proof.
+  intros val r e vs xs P H. apply check_must_spec in H. apply check_must_spec.
+  destruct H as [H | [H1 H2]]; [left; auto |]. right. split.
+  - intros v Hv. apply in_map_iff in Hv as [x [<- Hx]]. rewrite elem_code_canon. apply H1. eapply Permutation_in; eauto.
+  - intros c Hc. destruct (H2 c Hc) as [v [Hv Hq]]. exists (canon val e v). split.
+    + apply in_map. eapply Permutation_in; [apply Permutation_sym; exact P | exact Hv].
+    + rewrite elem_code_canon. exact Hq.
+Qed.
 
 (* ---------- the sequence cases, given the round trip of the element ---------- *)
 
@@ -453,11 +498,11 @@ Qed.
 Lemma ok_inj : forall {A} (a b : A), Ok a = Ok b -> a = b.
 Proof. intros A a b H. inversion H. reflexivity. Qed.
 
-Definition Rs (s : schema) : Prop := wf s -> no_must s -> forall val tot, rt_elem val tot s.
-Definition Rf (fs : fields) : Prop := wf_fields fs -> no_must_fields fs -> forall val tot vs b rest,
+Definition Rs (s : schema) : Prop := wf s -> forall val tot, rt_elem val tot s.
+Definition Rf (fs : fields) : Prop := wf_fields fs -> forall val tot vs b rest,
   good_fields val fs vs -> encode_fields val fs vs = Ok b -> N.of_nat (length b) < W32 ->
   decode_fields val tot fs (b ++ rest) = Ok (canon_fields val fs vs, length b).
-Definition Ra (al : alts) : Prop := forall d, wf_alts d al -> no_must_alts al -> forall val tot c v b rest,
+Definition Ra (al : alts) : Prop := forall d, wf_alts d al -> forall val tot c v b rest,
   good_alt val c al v -> encode_alt val c al v = Ok b -> N.of_nat (length b) < W32 ->
   decode_alt val tot c al (b ++ rest) = Ok (canon_alt val c al v, length b) /\ peek_code d (b ++ rest) = Ok c.
 
@@ -488,12 +533,12 @@ Qed.
 Theorem roundtrip_all : (forall s, Pr s) /\ (forall fs, Rf fs) /\ (forall al, Ra al).
 Proof.
   apply schema_fields_alts_ind; unfold Pr.
-  - (* SBool *) split; [| exact I]. intros _ _ val tot d v b rest _ H _. cbn [encode] in H.
+  - (* SBool *) split; [| exact I]. intros _ val tot d v b rest _ H _. cbn [encode] in H.
     destruct v; try discriminate. destruct b0; apply ok_inj in H as <-; reflexivity.
-  - (* SInt *) intros sg w. split; [| exact I]. intros _ _ val tot d v b rest _ H _. cbn [encode] in H.
+  - (* SInt *) intros sg w. split; [| exact I]. intros _ val tot d v b rest _ H _. cbn [encode] in H.
     destruct v; try discriminate. apply ok_inj in H as <-. cbn [decode canon].
     unfold enc_int. rewrite take_le_enc. cbn [bind]. rewrite le_enc_len. reflexivity.
-  - (* SString *) intros l mn mx. split; [| exact I]. intros _ _ val tot d v b rest _ H Hlen. cbn [encode] in H.
+  - (* SString *) intros l mn mx. split; [| exact I]. intros _ val tot d v b rest _ H Hlen. cbn [encode] in H.
     destruct v; try discriminate.
     apply bind_ok in H as [u1 [H1 H]]. apply bind_ok in H as [u2 [H2 H]]. apply bind_ok in H as [u3 [H3 H]].
     apply bind_ok in H as [pre [Hw H]]. apply ok_inj in H as <-.
@@ -508,7 +553,7 @@ Proof.
     assert (Hu : val && negb (utf8_valid bs) = false).
     { destruct val; auto. cbn [andb]. destruct (utf8_valid bs); [reflexivity | discriminate]. }
     rewrite Hu. rewrite app_length, (write_len_len _ _ _ Hw). reflexivity.
-  - (* SBytes *) intros l mn mx. split; [| exact I]. intros _ _ val tot d v b rest _ H Hlen. cbn [encode] in H.
+  - (* SBytes *) intros l mn mx. split; [| exact I]. intros _ val tot d v b rest _ H Hlen. cbn [encode] in H.
     destruct v; try discriminate.
     apply bind_ok in H as [u1 [H1 H]]. apply bind_ok in H as [u3 [H3 H]].
     apply bind_ok in H as [pre [Hw H]]. apply ok_inj in H as <-.
@@ -521,12 +566,12 @@ Proof.
       by (symmetry; apply N.ltb_ge; rewrite app_length; lia).
     rewrite Nat2N.id, firstn_app_exact.
     rewrite app_length, (write_len_len _ _ _ Hw). reflexivity.
-  - (* SByteArr *) intros n ty. split; [| exact I]. intros Hwf _ val tot d v b rest _ H _. cbn [encode] in H.
+  - (* SByteArr *) intros n ty. split; [| exact I]. intros Hwf val tot d v b rest _ H _. cbn [encode] in H.
     destruct v; try discriminate. destruct (Nat.eqb (length bs) n) eqn:E; try discriminate.
     apply Nat.eqb_eq in E. apply ok_inj in H as <-. cbn [decode canon]. rewrite <- app_assoc.
     rewrite check_code_enc by exact Hwf. cbn [bind]. rewrite skipn_app_exact. subst n. rewrite take_app. cbn [bind].
     rewrite app_length. reflexivity.
-  - (* SU256 *) split; [| exact I]. intros _ _ val tot d v b rest _ H _. cbn [encode] in H.
+  - (* SU256 *) split; [| exact I]. intros _ val tot d v b rest _ H _. cbn [encode] in H.
     destruct v; try discriminate.
     destruct ((z <? 0)%Z || (U256 <=? z)%Z) eqn:E; try discriminate. apply ok_inj in H as <-.
     apply orb_false_elim in E as [E1 E2]. apply Z.ltb_ge in E1. apply Z.leb_gt in E2.
@@ -536,63 +581,73 @@ Proof.
     + rewrite Z2N.id by lia. reflexivity.
     + replace (256 ^ N.of_nat 32) with (Z.to_N U256) by (vm_compute; reflexivity).
       apply Z2N.inj_lt; try lia; unfold U256; apply Z.pow_nonneg; lia.
-  - (* STime *) split; [| exact I]. intros _ _ val tot d v b rest _ H _. cbn [encode] in H.
+  - (* STime *) split; [| exact I]. intros _ val tot d v b rest _ H _. cbn [encode] in H.
     destruct v; try discriminate. apply ok_inj in H as <-. cbn [decode canon].
     rewrite take_le_enc. cbn [bind]. rewrite le_enc_len. reflexivity.
-  - (* SPtr *) intros s [IH _]. split; [| exact I]. intros Hwf Hnm val tot d v b rest Hg H Hlen.
-    cbn [encode] in H. cbn [decode canon]. cbn [good] in Hg. cbn [wf] in Hwf. cbn [no_must] in Hnm.
+  - (* SPtr *) intros s [IH _]. split; [| exact I]. intros Hwf val tot d v b rest Hg H Hlen.
+    cbn [encode] in H. cbn [decode canon]. cbn [good] in Hg. cbn [wf] in Hwf.
     destruct (ptr_target_ok s); [| destruct v; discriminate].
-    destruct v; try discriminate; eapply (IH Hwf Hnm val tot false); eauto.
-  - (* SStruct *) intros ty fs IH. split; [| exact IH]. intros [Hc Hwf] Hnm val tot d v b rest Hg H Hlen.
+    destruct v; try discriminate; eapply (IH Hwf val tot false); eauto.
+  - (* SStruct *) intros ty fs IH. split; [| exact IH]. intros [Hc Hwf] val tot d v b rest Hg H Hlen.
     cbn [encode] in H. destruct v; try discriminate.
     apply bind_ok in H as [body [Hb H]]. apply ok_inj in H as <-.
     cbn [decode canon]. rewrite <- app_assoc. rewrite check_code_enc by exact Hc.
     rewrite skipn_app_exact. rewrite app_length in Hlen.
-    rewrite (IH Hwf Hnm val tot vs body rest Hg Hb) by lia. cbn [bind]. rewrite app_length. reflexivity.
-  - (* SSlice *) intros l r e [IH _]. split; [| exact I]. intros [Hwf Hz] [Hm Hnm] val tot d v b rest Hg H Hlen.
+    rewrite (IH Hwf val tot vs body rest Hg Hb) by lia. cbn [bind]. rewrite app_length. reflexivity.
+  - (* SSlice *) intros l r e [IH _]. split; [| exact I]. intros [Hwf Hz] val tot d v b rest Hg H Hlen.
     cbn [encode] in H. destruct v; try discriminate.
     apply bind_ok in H as [u1 [H1 H]]. apply bind_ok in H as [u2 [H2 H]]. apply bind_ok in H as [data [Hd H]].
     cbn [decode canon]. cbn [good] in Hg.
-    rewrite (seq_roundtrip val tot l r e vs data b rest Hz (IH Hwf Hnm val tot) Hg Hd H Hlen). cbn [bind].
-    rewrite rev_involutive. rewrite check_must_nil by exact Hm.
-    destruct val; reflexivity.
-  - (* SArr *) intros n l r e [IH _]. split; [| exact I]. intros [Hwf Hz] [Hm Hnm] val tot d v b rest Hg H Hlen.
+    rewrite (seq_roundtrip val tot l r e vs data b rest Hz (IH Hwf val tot) Hg Hd H Hlen). cbn [bind].
+    rewrite rev_involutive.
+    destruct val; [| reflexivity]. destruct u2.
+    match goal with |- context [check_must r e ?L] => assert (Hcm : check_must r e L = Ok tt) end.
+    { apply (check_must_perm_canon true r e vs); [| exact H2].
+      destruct (ar_autosort r && ar_lex r); [apply sort_on_perm | apply Permutation_refl]. }
+    rewrite Hcm.
+    reflexivity.
+  - (* SArr *) intros n l r e [IH _]. split; [| exact I]. intros [Hwf Hz] val tot d v b rest Hg H Hlen.
     cbn [encode] in H. destruct v; try discriminate.
     destruct (Nat.eqb (length vs) n) eqn:En; cbn [negb] in H; try discriminate.
     apply bind_ok in H as [u1 [H1 H]]. apply bind_ok in H as [u2 [H2 H]]. apply bind_ok in H as [data [Hd H]].
     cbn [decode canon]. cbn [good] in Hg.
-    rewrite (seq_roundtrip val tot l r e vs data b rest Hz (IH Hwf Hnm val tot) Hg Hd H Hlen). cbn [bind].
-    rewrite rev_involutive. rewrite check_must_nil by exact Hm.
+    rewrite (seq_roundtrip val tot l r e vs data b rest Hz (IH Hwf val tot) Hg Hd H Hlen). cbn [bind].
+    rewrite rev_involutive.
     assert (Hl : Nat.eqb (length (map (canon val e) (if ar_autosort r && ar_lex r then sort_on (enc_or_nil val e) vs else vs))) n = true).
     { rewrite map_length. destruct (ar_autosort r && ar_lex r); cbv iota; [rewrite sort_on_length |]; exact En. }
-    destruct val; cbn [bind]; rewrite Hl; reflexivity.
+    destruct val; [| cbn [bind]; rewrite Hl; reflexivity]. destruct u2.
+    match goal with |- context [check_must r e ?L] => assert (Hcm : check_must r e L = Ok tt) end.
+    { apply (check_must_perm_canon true r e vs); [| exact H2].
+      destruct (ar_autosort r && ar_lex r); [apply sort_on_perm | apply Permutation_refl]. }
+    rewrite Hcm.
+    cbn [bind]. rewrite Hl. reflexivity.
   - (* SMap *) intros l r k [IHk _] ve [IHv _]. split; [| exact I].
-    intros [Hwk [Hwv Hz]] [Hnk Hnv] val tot d v b rest Hg H Hlen.
+    intros [Hwk [Hwv Hz]] val tot d v b rest Hg H Hlen.
     cbn [encode] in H. destruct v; try discriminate.
     apply bind_ok in H as [u1 [H1 H]]. apply bind_ok in H as [data [Hd H]].
     cbn [decode canon]. cbn [good] in Hg. destruct Hg as [Hg1 Hg2].
     fold (map_rules r) in H |- *.
-    rewrite (map_roundtrip val tot l r k ve es data b rest Hz (IHk Hwk Hnk val tot) (IHv Hwv Hnv val tot) Hg1 Hg2 Hd H Hlen).
+    rewrite (map_roundtrip val tot l r k ve es data b rest Hz (IHk Hwk val tot) (IHv Hwv val tot) Hg1 Hg2 Hd H Hlen).
     cbn [bind]. rewrite rev_involutive. reflexivity.
-  - (* SIface *) intros d al IH. split; [| exact I]. intros Hwf Hnm val tot d0 v b rest Hg H Hlen.
+  - (* SIface *) intros d al IH. split; [| exact I]. intros Hwf val tot d0 v b rest Hg H Hlen.
     cbn [encode] in H. destruct v; try discriminate. cbn [good] in Hg.
-    destruct (IH d Hwf Hnm val tot c v b rest Hg H Hlen) as [Hd Hp].
+    destruct (IH d Hwf val tot c v b rest Hg H Hlen) as [Hd Hp].
     cbn [decode canon]. rewrite Hp. cbn [bind]. rewrite Hd. reflexivity.
-  - (* FNil *) intros _ _ val tot vs b rest _ H _. cbn [encode_fields] in H. destruct vs; try discriminate.
+  - (* FNil *) intros _ val tot vs b rest _ H _. cbn [encode_fields] in H. destruct vs; try discriminate.
     apply ok_inj in H as <-. reflexivity.
-  - (* FCons *) intros k s [IHs IHemb] r IHr [Hws [Hwr Hk]] [Hns Hnr] val tot vs b rest Hg H Hlen.
+  - (* FCons *) intros k s [IHs IHemb] r IHr [Hws [Hwr Hk]] val tot vs b rest Hg H Hlen.
     cbn [encode_fields] in H. destruct vs as [| v vs]; try discriminate.
     apply bind_ok in H as [fb [Hf H]]. apply bind_ok in H as [rb [Hr H]]. apply ok_inj in H as <-.
     cbn [good_fields] in Hg. destruct Hg as [Hgv Hgr].
     rewrite app_length in Hlen.
-    specialize (IHr Hwr Hnr val tot vs rb rest Hgr Hr ltac:(lia)).
+    specialize (IHr Hwr val tot vs rb rest Hgr Hr ltac:(lia)).
     rewrite <- app_assoc.
     cbn [decode_fields].
     match goal with |- bind ?X _ = _ =>
       assert (Hstep : X = Ok (match canon_fields val (FCons k s r) (v :: vs) with x :: _ => x | [] => VNil end, length fb))
     end.
     { destruct k.
-      - cbn [canon_fields]. eapply (IHs Hws Hns val tot true); eauto. lia.
+      - cbn [canon_fields]. eapply (IHs Hws val tot true); eauto. lia.
       - cbn [canon_fields].
         destruct (encode val true s v) as [eb | |] eqn:Eenc.
         + assert (Hfb : fb = le_enc 4 (N.of_nat (length eb)) ++ eb \/ (v = VNil /\ fb = le_enc 4 0)).
@@ -608,27 +663,27 @@ Proof.
             -- cbn [length N.of_nat N.eqb]. destruct v; reflexivity.
             -- replace (N.of_nat (length (e0 :: eb)) =? 0) with false by (symmetry; apply N.eqb_neq; simpl; lia).
                assert (Hv : v <> VNil). { intros ->. destruct s; cbn in Eenc; discriminate. }
-               rewrite (IHs Hws Hns val tot true v (e0 :: eb) (rb ++ rest) Hgv Eenc) by lia. cbn [bind].
+               rewrite (IHs Hws val tot true v (e0 :: eb) (rb ++ rest) Hgv Eenc) by lia. cbn [bind].
                rewrite N.eqb_refl. cbn [negb]. destruct v; try congruence; reflexivity.
           * cbn [le_enc]. reflexivity.
         + destruct v; try discriminate. apply ok_inj in Hf as <-. cbn [le_enc]. reflexivity.
         + destruct v; try discriminate. apply ok_inj in Hf as <-. cbn [le_enc]. reflexivity.
       - destruct s; try contradiction. destruct v; try discriminate. cbn [canon_fields].
-        cbn [good_fields] in Hgv. cbn [wf] in Hws. cbn [no_must] in Hns.
-        rewrite (IHemb (proj2 Hws) Hns val tot vs0 fb (rb ++ rest) Hgv Hf) by lia. reflexivity.
+        cbn [good_fields] in Hgv. cbn [wf] in Hws.
+        rewrite (IHemb (proj2 Hws) val tot vs0 fb (rb ++ rest) Hgv Hf) by lia. reflexivity.
       - destruct s; try contradiction. destruct v; try discriminate. cbn [canon_fields].
-        cbn [good_fields] in Hgv. cbn [wf] in Hws. cbn [no_must] in Hns.
-        rewrite (IHemb (proj2 Hws) Hns val tot vs0 fb (rb ++ rest) Hgv Hf) by lia. reflexivity. }
+        cbn [good_fields] in Hgv. cbn [wf] in Hws.
+        rewrite (IHemb (proj2 Hws) val tot vs0 fb (rb ++ rest) Hgv Hf) by lia. reflexivity. }
     rewrite Hstep. cbn [bind].
     rewrite app_length.
     replace (length fb + length (rb ++ rest) <? length fb)%nat with false by (symmetry; apply Nat.ltb_ge; lia).
     rewrite skipn_app_exact, IHr. cbn [bind]. cbn [canon_fields]. rewrite app_length. reflexivity.
-  - (* ANil *) intros d _ _ val tot c v b rest _ H _. cbn [encode_alt] in H. discriminate.
-  - (* ACons *) intros c' s [IHs _] r IHr d [Hws [Hao Hwr]] [Hns Hnr] val tot c v b rest Hg H Hlen.
+  - (* ANil *) intros d _ val tot c v b rest _ H _. cbn [encode_alt] in H. discriminate.
+  - (* ACons *) intros c' s [IHs _] r IHr d [Hws [Hao Hwr]] val tot c v b rest Hg H Hlen.
     cbn [encode_alt] in H. cbn [good_alt] in Hg. cbn [decode_alt canon_alt].
     destruct (c =? c') eqn:E.
     + apply N.eqb_eq in E. subst c'. split.
-      * eapply (IHs Hws Hns val tot true); eauto.
+      * eapply (IHs Hws val tot true); eauto.
       * unfold alt_ok in Hao. destruct s; try contradiction.
         -- (* SPtr (SStruct (Some t) fs) *)
            destruct s; try contradiction. destruct ty as [t |]; try contradiction. destruct Hao as [Hc Hd].
@@ -643,17 +698,17 @@ Proof.
     + eapply IHr; eauto.
 Qed.
 
-Theorem roundtrip : forall s, wf s -> no_must s -> forall val d tot v b rest,
+Theorem roundtrip : forall s, wf s -> forall val d tot v b rest,
   good val s v -> encode val d s v = Ok b -> N.of_nat (length b) < W32 ->
   decode val tot s (b ++ rest) = Ok (canon val s v, length b).
-Proof. intros s Hwf Hnm val d tot. exact (proj1 (proj1 roundtrip_all s) Hwf Hnm val tot d). Qed.
+Proof. intros s Hwf val d tot. exact (proj1 (proj1 roundtrip_all s) Hwf val tot d). Qed.
 
-Corollary Roundtrip : forall s, wf s -> no_must s -> forall val v b,
+Corollary Roundtrip : forall s, wf s -> forall val v b,
   good val s v -> Encode val s v = Ok b -> N.of_nat (length b) < W32 ->
   Decode val s b = Ok (canon val s v, length b).
 Proof.
-  intros s Hwf Hnm val v b Hg He Hl. unfold Decode.
-  pose proof (roundtrip s Hwf Hnm val true (length b) v b [] Hg He Hl) as H. rewrite app_nil_r in H. exact H.
+  intros s Hwf val v b Hg He Hl. unfold Decode.
+  pose proof (roundtrip s Hwf val true (length b) v b [] Hg He Hl) as H. rewrite app_nil_r in H. exact H.
 Qed.
 
 (* non-vacuity: a schema with a map, an auto-sorted slice, an optional and an interface satisfies the guards *)
@@ -668,13 +723,12 @@ Definition ex_value : value :=
       VIface 1 (VL [VBig 258])].
 
 Example roundtrip_nonvacuous :
-  wf ex_schema /\ no_must ex_schema /\ good true ex_schema ex_value /\
+  wf ex_schema /\ good true ex_schema ex_value /\
   exists b, Encode true ex_schema ex_value = Ok b /\ N.of_nat (length b) < W32 /\
             Decode true ex_schema b = Ok (canon true ex_schema ex_value, length b) /\ canon true ex_schema ex_value <> ex_value.
 Proof.
-  split; [| split; [| split]].
+  split; [| split].
   - cbn. unfold W32. repeat split; auto; lia.
-  - cbn. repeat split; auto.
   - cbn. repeat (first [exact I | apply Forall_nil | apply Forall_cons | split]); try (vm_compute; discriminate).
     intros done x todo H y Hy.
     match type of H with ?L = _ => let v := eval vm_compute in L in change L with v in H end.
